@@ -28,6 +28,7 @@ type enumF struct {
 	name  string
 	f     veconst.EnumFactory
 	typed func(b uint8) (int, string, error)
+	cast  func(b uint8) (int, string) // the constant written down directly (a cast of a parsed byte), not obtained from the factory
 }
 
 func tw[T interface {
@@ -43,28 +44,36 @@ func tw[T interface {
 	}
 }
 
+func cs[T interface {
+	~uint8
+	Idx() int
+	String() string
+}]() func(uint8) (int, string) {
+	return func(b uint8) (int, string) { return T(b).Idx(), T(b).String() }
+}
+
 func enumFs() []enumF {
 	return []enumF{
-		{"SolarChargerTrackerMode", veconst.SolarChargerTrackerModeFactory, tw(veconst.SolarChargerTrackerModeFactory.New)},
-		{"BmvAuxMode", veconst.BmvAuxModeFactory, tw(veconst.BmvAuxModeFactory.New)},
-		{"BooleanDisabledEnabled", veconst.BooleanDisabledEnabledFactory, tw(veconst.BooleanDisabledEnabledFactory.New)},
-		{"BooleanFalseTrue", veconst.BooleanFalseTrueFactory, tw(veconst.BooleanFalseTrueFactory.New)},
-		{"BooleanInactiveActive", veconst.BooleanInactiveActiveFactory, tw(veconst.BooleanInactiveActiveFactory.New)},
-		{"BooleanNoYes", veconst.BooleanNoYesFactory, tw(veconst.BooleanNoYesFactory.New)},
-		{"BooleanOffOn", veconst.BooleanOffOnFactory, tw(veconst.BooleanOffOnFactory.New)},
-		{"DcDcConverterError", veconst.DcDcConverterErrorFactory, tw(veconst.DcDcConverterErrorFactory.New)},
-		{"DcDcConverterState", veconst.DcDcConverterStateFactory, tw(veconst.DcDcConverterStateFactory.New)},
-		{"DcEnergyMeterAuxMode", veconst.DcEnergyMeterAuxModeFactory, tw(veconst.DcEnergyMeterAuxModeFactory.New)},
-		{"InverterFrequency", veconst.InverterFrequencyFactory, tw(veconst.InverterFrequencyFactory.New)},
-		{"InverterMode", veconst.InverterModeFactory, tw(veconst.InverterModeFactory.New)},
-		{"InverterState", veconst.InverterStateFactory, tw(veconst.InverterStateFactory.New)},
-		{"MultiRsActiveInput", veconst.MultiRsActiveInputFactory, tw(veconst.MultiRsActiveInputFactory.New)},
-		{"SolarChargerError", veconst.SolarChargerErrorFactory, tw(veconst.SolarChargerErrorFactory.New)},
-		{"SolarChargerBatteryType", veconst.SolarChargerBatteryTypeFactory, tw(veconst.SolarChargerBatteryTypeFactory.New)},
-		{"SolarChargerBatteryVoltage", veconst.SolarChargerBatteryVoltageFactory, tw(veconst.SolarChargerBatteryVoltageFactory.New)},
-		{"SolarChargerDeviceMode", veconst.SolarChargerDeviceModeFactory, tw(veconst.SolarChargerDeviceModeFactory.New)},
-		{"SolarChargerState", veconst.SolarChargerStateFactory, tw(veconst.SolarChargerStateFactory.New)},
-		{"VeBusAlarm", veconst.VeBusAlarmFactory, tw(veconst.VeBusAlarmFactory.New)},
+		{"SolarChargerTrackerMode", veconst.SolarChargerTrackerModeFactory, tw(veconst.SolarChargerTrackerModeFactory.New), cs[veconst.SolarChargerTrackerMode]()},
+		{"BmvAuxMode", veconst.BmvAuxModeFactory, tw(veconst.BmvAuxModeFactory.New), cs[veconst.BmvAuxMode]()},
+		{"BooleanDisabledEnabled", veconst.BooleanDisabledEnabledFactory, tw(veconst.BooleanDisabledEnabledFactory.New), cs[veconst.BooleanDisabledEnabled]()},
+		{"BooleanFalseTrue", veconst.BooleanFalseTrueFactory, tw(veconst.BooleanFalseTrueFactory.New), cs[veconst.BooleanFalseTrue]()},
+		{"BooleanInactiveActive", veconst.BooleanInactiveActiveFactory, tw(veconst.BooleanInactiveActiveFactory.New), cs[veconst.BooleanInactiveActive]()},
+		{"BooleanNoYes", veconst.BooleanNoYesFactory, tw(veconst.BooleanNoYesFactory.New), cs[veconst.BooleanNoYes]()},
+		{"BooleanOffOn", veconst.BooleanOffOnFactory, tw(veconst.BooleanOffOnFactory.New), cs[veconst.BooleanOffOn]()},
+		{"DcDcConverterError", veconst.DcDcConverterErrorFactory, tw(veconst.DcDcConverterErrorFactory.New), cs[veconst.DcDcConverterError]()},
+		{"DcDcConverterState", veconst.DcDcConverterStateFactory, tw(veconst.DcDcConverterStateFactory.New), cs[veconst.DcDcConverterState]()},
+		{"DcEnergyMeterAuxMode", veconst.DcEnergyMeterAuxModeFactory, tw(veconst.DcEnergyMeterAuxModeFactory.New), cs[veconst.DcEnergyMeterAuxMode]()},
+		{"InverterFrequency", veconst.InverterFrequencyFactory, tw(veconst.InverterFrequencyFactory.New), cs[veconst.InverterFrequency]()},
+		{"InverterMode", veconst.InverterModeFactory, tw(veconst.InverterModeFactory.New), cs[veconst.InverterMode]()},
+		{"InverterState", veconst.InverterStateFactory, tw(veconst.InverterStateFactory.New), cs[veconst.InverterState]()},
+		{"MultiRsActiveInput", veconst.MultiRsActiveInputFactory, tw(veconst.MultiRsActiveInputFactory.New), cs[veconst.MultiRsActiveInput]()},
+		{"SolarChargerError", veconst.SolarChargerErrorFactory, tw(veconst.SolarChargerErrorFactory.New), cs[veconst.SolarChargerError]()},
+		{"SolarChargerBatteryType", veconst.SolarChargerBatteryTypeFactory, tw(veconst.SolarChargerBatteryTypeFactory.New), cs[veconst.SolarChargerBatteryType]()},
+		{"SolarChargerBatteryVoltage", veconst.SolarChargerBatteryVoltageFactory, tw(veconst.SolarChargerBatteryVoltageFactory.New), cs[veconst.SolarChargerBatteryVoltage]()},
+		{"SolarChargerDeviceMode", veconst.SolarChargerDeviceModeFactory, tw(veconst.SolarChargerDeviceModeFactory.New), cs[veconst.SolarChargerDeviceMode]()},
+		{"SolarChargerState", veconst.SolarChargerStateFactory, tw(veconst.SolarChargerStateFactory.New), cs[veconst.SolarChargerState]()},
+		{"VeBusAlarm", veconst.VeBusAlarmFactory, tw(veconst.VeBusAlarmFactory.New), cs[veconst.VeBusAlarm]()},
 	}
 }
 
@@ -316,8 +325,8 @@ func enumOut(e veconst.Enum, err error) string {
 }
 
 func suiteC14(rng *Rng, thorough bool, s *Sink) {
-	extremes := []int{-1 << 63, -1<<63 + 1, 1<<63 - 1, 1<<63 - 2, -1 << 31, -1<<31 - 1, -1<<31 + 1, 1 << 31, 1<<31 - 1, 1<<31 + 1, 1 << 32, 1<<32 + 1, 1<<32 + 255,
-		1 << 16, 1<<16 + 1, 1<<16 + 255, -1 << 16, 70001, -70001, 1 << 24, 1<<24 + 9, 1<<40 + 3}
+	extremes := fitInts(-1<<63, -1<<63+1, 1<<63-1, 1<<63-2, -1<<31, -1<<31-1, -1<<31+1, 1<<31, 1<<31-1, 1<<31+1, 1<<32, 1<<32+1, 1<<32+255,
+		1<<16, 1<<16+1, 1<<16+255, -1<<16, 70001, -70001, 1<<24, 1<<24+9, 1<<40+3)
 	for _, e := range enumFs() {
 		m := e.f.IntToStringMap()
 		// index-to-name map
@@ -416,6 +425,58 @@ func suiteC14(rng *Rng, thorough bool, s *Sink) {
 				}
 			}
 		}
+	}
+	enumInterleaved(s)
+}
+
+// enumInterleaved: the same index asked of one enumeration after the other (a process that talks to a charger, an inverter
+// and a battery monitor decodes their state registers in turn): each enumeration answers from its own table
+func enumInterleaved(s *Sink) {
+	es := enumFs()
+	maps := make([]map[int]string, len(es))
+	for i, e := range es {
+		maps[i] = e.f.IntToStringMap()
+	}
+	for round := 0; round < 2; round++ {
+		for v := -3; v <= 260; v++ {
+			for i, e := range es {
+				if round == 1 {
+					e, i = es[len(es)-1-i], len(es)-1-i
+					en, err := e.f.NewEnum(v)
+					checkInterleaved(s, e, maps[i], v, en, err)
+					continue
+				}
+				en, err := e.f.NewEnum(v)
+				checkInterleaved(s, e, maps[i], v, en, err)
+			}
+		}
+	}
+	// typed constructors and direct constants interleaved likewise
+	for b := 0; b < 256; b++ {
+		for i, e := range es {
+			idx, name, err := e.typed(uint8(b))
+			mn, isKey := maps[i][b]
+			if (err == nil) != isKey || (err == nil && (idx != b || name != mn)) {
+				s.Violate(fmt.Sprintf("ET %s %d mut:asked-in-turn-with-the-other-enumerations", e.name, b), name, fmt.Sprintf("%s.New(%d) asked in turn with the other enumerations: key=%v (%q) but got idx=%d name=%q err=%v", e.name, b, isKey, mn, idx, name, err))
+			}
+			if _, cname := e.cast(uint8(b)); isKey && cname != mn {
+				s.Violate(fmt.Sprintf("EC %s %d mut:asked-in-turn-with-the-other-enumerations", e.name, b), cname, fmt.Sprintf("%s(%d).String() = %q, the enumeration's map says %q", e.name, b, cname, mn))
+			}
+		}
+	}
+}
+
+func checkInterleaved(s *Sink, e enumF, m map[int]string, v int, en veconst.Enum, err error) {
+	op := fmt.Sprintf("EN %s %d mut:asked-in-turn-with-the-other-enumerations", e.name, v)
+	out := enumOut(en, err)
+	s.Line("interleaved", op, out)
+	name, isKey := m[v]
+	if isKey {
+		if err != nil || en == nil || en.Idx() != v || en.String() != name {
+			s.Violate(op, out, fmt.Sprintf("%s: %d is a key of the index-to-name map (%q) but, asked right after the same index of another enumeration, construction gave %s", e.name, v, name, out))
+		}
+	} else if err == nil || !errors.Is(err, veconst.ErrInvalidEnumIdx) {
+		s.Violate(op, out, fmt.Sprintf("%s: %d is NOT a key of the index-to-name map but, asked right after the same index of another enumeration, construction gave %s", e.name, v, out))
 	}
 }
 
@@ -631,6 +692,59 @@ func suiteC15(rng *Rng, thorough bool, s *Sink) {
 				if b := <-res; b != nil {
 					rv := rendered[b.i]
 					s.Violate(rv.op, hexS(b.got), fmt.Sprintf("%s: rendered concurrently with other values, the value renders as %q; alone it renders as %q", fl.name, b.got, rv.first))
+				}
+			}
+		}
+	}
+	// names asked for indices the type does not document (a consumer of a BLE record prints the name of every bit of a raw
+	// off-reason word): looking a name up must leave the field sets, the maps and the renderings as they were
+	docBefore := map[string]string{}
+	for _, fl := range flFs() {
+		docBefore[fl.name] = intMapStr(fl.f.IntToStringMap())
+	}
+	for b := 0; b < 256; b++ {
+		_ = veconst.InverterOffReason(b).String()
+		_ = veconst.SolarOffReason(b).String()
+		_ = veconst.InverterWarningReason(b).String()
+		_, _ = veconst.InverterOffReason(b).Idx(), veconst.SolarOffReason(b).Idx()
+	}
+	for _, fl := range flFs() {
+		m := fl.f.IntToStringMap()
+		ks := make([]int, 0, len(m))
+		for k := range m {
+			ks = append(ks, k)
+		}
+		sort.Ints(ks)
+		var ents []string
+		for _, k := range ks {
+			ents = append(ents, fmt.Sprintf("%d=%s", k, hexS(m[k])))
+		}
+		s.Line("map-after-name-lookups", "EM "+fl.name+" mut:after-names-were-asked-for-undocumented-indices", strings.Join(ents, ","))
+		if now := intMapStr(m); now != docBefore[fl.name] {
+			s.Violate("EM "+fl.name+" mut:after-names-were-asked-for-undocumented-indices", now[:min(300, len(now))], fmt.Sprintf("%s: asking the names of undocumented indices (String() of 0..255) changed the index-to-name map, i.e. the set of documented fields, from {%s} to {%s}", fl.name, docBefore[fl.name][:min(200, len(docBefore[fl.name]))], now[:min(300, len(now))]))
+		}
+		for _, raw := range fitUints(0, 1, 0x80, 0xFF, 0x3FF, 0xFFFF, 0x12345, 0xFFFFFFFF, uint64(rng.U64())) {
+			flv, err := fl.f.NewFieldList(raw)
+			op := fmt.Sprintf("FF %s %d mut:after-names-were-asked-for-undocumented-indices", fl.name, raw)
+			if err != nil {
+				s.Line("fields-after-name-lookups", op, "err:"+errKind(err))
+				continue
+			}
+			out := fieldsStr(flv.Fields())
+			s.Line("fields-after-name-lookups", op, out)
+			if nk := strings.Count(out, ":"); nk != strings.Count(docBefore[fl.name], "=") {
+				s.Violate(op, out[:min(300, len(out))], fmt.Sprintf("%s raw=0x%X: after names were asked for undocumented indices the decoded field set has %d keys, %d are documented", fl.name, raw, nk, strings.Count(docBefore[fl.name], "=")))
+			}
+			if td := typedDecodeStr(flv); td != out {
+				s.Violate(op, td, fmt.Sprintf("%s raw=0x%X: after name lookups the typed Decode() gives {%s}, Fields() gives {%s}", fl.name, raw, td, out))
+			}
+			if reg, ok := fieldListRegisters()[fl.name]; ok {
+				w := 4
+				if fl.name == "InverterWarningReasons" {
+					w = 2
+				}
+				if val, err := fieldListValueVia(reg, leBytes(w, uint64(raw))); err == nil {
+					s.Line("render-after-name-lookups", fmt.Sprintf("FC %s %d mut:after-names-were-asked-for-undocumented-indices", fl.name, leU(leBytes(w, uint64(raw)))), hexS(val.CommaString()))
 				}
 			}
 		}
@@ -1137,8 +1251,152 @@ func runRegOps(pool []poolItem, ops []string) (string, []string) {
 	return out, viol
 }
 
+// derivedLists: several lists derived from one - the library's per-product list, or a caller's common list copied by value -
+// each filtered and then extended on its own. Once a list has been filtered (or handed out by the factory) its four sequences
+// are its own: what is appended to one list never shows up in, or overwrites the tail of, another. Decided by the reference
+// sequences alone (no model line: the model's values cannot alias).
+func derivedLists(s *Sink, pool []poolItem, rng *Rng) {
+	n := 0
+	seqOf := func(rl *veregister.RegisterList) string {
+		p := seqStrings(rl)
+		return strings.Join(p[0], ",") + "|" + strings.Join(p[1], ",") + "|" + strings.Join(p[2], ",") + "|" + strings.Join(p[3], ",")
+	}
+	refOf := func(ref [5][]poolItem) string {
+		var parts []string
+		for k := 1; k <= 4; k++ {
+			var w []string
+			for _, it := range ref[k] {
+				w = append(w, shortReg(k, it.reg()))
+			}
+			parts = append(parts, strings.Join(w, ","))
+		}
+		return strings.Join(parts, "|")
+	}
+	appendItem := func(rl *veregister.RegisterList, ref *[5][]poolItem, it poolItem) {
+		switch it.kind {
+		case 1:
+			rl.AppendNumberRegisterStruct(*it.n)
+		case 2:
+			rl.AppendTextRegisterStruct(*it.t)
+		case 3:
+			rl.AppendEnumRegisterStruct(*it.e)
+		case 4:
+			rl.AppendFieldListRegisterStruct(*it.f)
+		}
+		ref[it.kind] = append(ref[it.kind], it)
+	}
+	extra := func(kind, i int) poolItem {
+		return synthItem(fmt.Sprintf("%d.%d.derived%d", kind, 500+i, i))
+	}
+	// (1) a caller's common list, copied by value; every copy filtered (by a name that touches one kind only, by a predicate that
+	// keeps everything, by one that keeps nothing of one kind) and then extended with one register of every kind
+	filters := []struct {
+		name string
+		f    func(rl *veregister.RegisterList)
+		keep func(it poolItem) bool
+	}{
+		{"FilterByName(one number register)", nil, nil},
+		{"FilterRegister(keep all)", func(rl *veregister.RegisterList) { rl.FilterRegister(func(veregister.Register) bool { return true }) }, func(poolItem) bool { return true }},
+		{"FilterRegister(drop texts)", func(rl *veregister.RegisterList) {
+			rl.FilterRegister(func(r veregister.Register) bool { return kindOf(r) != 2 })
+		}, func(it poolItem) bool { return it.kind != 2 }},
+		{"FilterByName()", func(rl *veregister.RegisterList) { rl.FilterByName() }, func(poolItem) bool { return true }},
+	}
+	for round := 0; round < 6; round++ {
+		common := veregister.NewRegisterList()
+		var cref [5][]poolItem
+		for k := 0; k < 5+round*3; k++ { // one by one: the backing arrays end up with spare capacity
+			appendItem(&common, &cref, pool[rng.Intn(len(pool))])
+		}
+		firstNum := ""
+		if len(cref[1]) > 0 {
+			firstNum = cref[1][0].reg().Name()
+		}
+		filters[0].f = func(rl *veregister.RegisterList) { rl.FilterByName(firstNum) }
+		filters[0].keep = func(it poolItem) bool { return it.reg().Name() != firstNum }
+		type derived struct {
+			rl   veregister.RegisterList
+			ref  [5][]poolItem
+			desc string
+		}
+		var ds []*derived
+		for di := 0; di < 4; di++ {
+			fl := filters[(di+round)%len(filters)]
+			d := &derived{rl: common, desc: fmt.Sprintf("list %d = copy of a common list, %s", di, fl.name)}
+			fl.f(&d.rl)
+			for k := 1; k <= 4; k++ {
+				for _, it := range cref[k] {
+					if fl.keep(it) {
+						d.ref[k] = append(d.ref[k], it)
+					}
+				}
+			}
+			ds = append(ds, d)
+		}
+		for di, d := range ds {
+			for kind := 1; kind <= 4; kind++ {
+				appendItem(&d.rl, &d.ref, extra(kind, di*4+kind))
+			}
+			d.desc += ", then one register of every kind appended"
+		}
+		for di, d := range ds {
+			n++
+			if got, want := seqOf(&d.rl), refOf(d.ref); got != want {
+				s.Violate(fmt.Sprintf("derived lists round %d: %s", round, d.desc), got[:min(300, len(got))], fmt.Sprintf("after the OTHER derived lists were extended too, list %d holds [%s]; its own history (filter, appends) gives [%s]", di, got[:min(400, len(got))], want[:min(400, len(want))]))
+			}
+		}
+		if got, want := seqOf(&common), refOf(cref); got != want {
+			s.Violate(fmt.Sprintf("derived lists round %d: the common list", round), got[:min(300, len(got))], "the common list changed although only filtered copies of it were extended")
+		}
+	}
+	// (2) the library's own per-product lists: two callers get the list of the same product and extend it differently
+	for _, id := range []uint16{0x203, 0xA381, 0xA056, 0xA053, 0xA231} {
+		base, err := veregister.GetRegisterListByProduct(veproduct.Product(id))
+		if err != nil {
+			continue
+		}
+		var bref [5][]poolItem
+		_ = bref
+		want0 := seqOf(&base)
+		a, _ := veregister.GetRegisterListByProduct(veproduct.Product(id))
+		var aItems, bItems [5][]poolItem
+		for kind := 1; kind <= 4; kind++ {
+			appendItem(&a, &aItems, extra(kind, 100+kind))
+		}
+		b, _ := veregister.GetRegisterListByProduct(veproduct.Product(id))
+		for kind := 1; kind <= 4; kind++ {
+			appendItem(&b, &bItems, extra(kind, 200+kind))
+		}
+		c, _ := veregister.GetRegisterListByProduct(veproduct.Product(id))
+		wantOf := func(items [5][]poolItem) string {
+			parts := strings.Split(want0, "|")
+			for k := 1; k <= 4; k++ {
+				for _, it := range items[k] {
+					if parts[k-1] != "" {
+						parts[k-1] += ","
+					}
+					parts[k-1] += shortReg(k, it.reg())
+				}
+			}
+			return strings.Join(parts, "|")
+		}
+		n += 3
+		if got := seqOf(&a); got != wantOf(aItems) {
+			s.Violate(fmt.Sprintf("derived lists: two callers extend the list of product 0x%04X", id), got[:min(300, len(got))], fmt.Sprintf("the first caller's list holds [%s] after the second caller extended ITS list; its own history gives [%s]", got[:min(400, len(got))], wantOf(aItems)[:min(400, len(wantOf(aItems)))]))
+		}
+		if got := seqOf(&b); got != wantOf(bItems) {
+			s.Violate(fmt.Sprintf("derived lists: two callers extend the list of product 0x%04X", id), got[:min(300, len(got))], "the second caller's list does not hold the product's list plus what that caller appended")
+		}
+		if got := seqOf(&c); got != want0 {
+			s.Violate(fmt.Sprintf("derived lists: two callers extend the list of product 0x%04X", id), got[:min(300, len(got))], "a third caller does not get the product's list as it was")
+		}
+	}
+	s.Extra["derived_lists_checked"] += n
+}
+
 func suiteC16(rng *Rng, thorough bool, s *Sink) {
 	pool := buildPool()
+	derivedLists(s, pool, rng.Fork())
 	// small alphabet: registers sharing sort keys and names across families, filters of each kind
 	byName := map[string][]int{}
 	for i, it := range pool {
@@ -1165,7 +1423,7 @@ func suiteC16(rng *Rng, thorough bool, s *Sink) {
 		fmt.Sprintf("a=%d", firstOfKind(2, 0)), fmt.Sprintf("a=%d", firstOfKind(3, 0)), fmt.Sprintf("a=%d", firstOfKind(4, 0)),
 		fmt.Sprintf("a=%d,%d", firstOfKind(1, 3), firstOfKind(2, 1)),
 		"f=kind:1", "f=sortpar:0", "n=ProductId", "n=" + pool[firstOfKind(2, 0)].reg().Name() + ",Nope",
-		"k", "s=1.-9223372036854775808.lo", "s=2.9223372036854775807.hi", "s=1.-1.m",
+		"k", fmt.Sprintf("s=1.%d.lo", math.MinInt), fmt.Sprintf("s=2.%d.hi", math.MaxInt), "s=1.-1.m",
 		"g", fmt.Sprintf("p=%d,%d,%d@1", firstOfKind(1, 0), firstOfKind(1, 1), firstOfKind(1, 2)), "q",
 		"s=1.5.soc", "s=2.6.SOC", "n=SOC", "f=dedup", "f=first:2",
 	}
@@ -1225,7 +1483,7 @@ func suiteC16(rng *Rng, thorough bool, s *Sink) {
 				if rng.Intn(2) == 0 {
 					nm = caseNames[rng.Intn(len(caseNames))]
 				}
-				seq = append(seq, fmt.Sprintf("s=%d.%d.%s", 1+rng.Intn(4), keys[rng.Intn(len(keys))], nm))
+				seq = append(seq, fmt.Sprintf("s=%d.%d.%s", 1+rng.Intn(4), int(keys[rng.Intn(len(keys))]), nm)) // int(): a key the platform can hold
 			case 0:
 				seq = append(seq, "f="+preds[rng.Intn(len(preds))])
 			case 1:
@@ -1316,7 +1574,97 @@ func fieldsStr(fields map[veconst.Field]bool) string {
 // suiteC17: every lookup function x caller mutations x a second and third call. The operation line is the
 // plain lookup (the model's answer is the constant table content); the real side first corrupts what an
 // earlier call returned.
+// twoLiveResults: a caller holds TWO results of the same lookup, taken one after the other with nothing in between, and edits
+// one of them: the other one - still in the caller's hands - and every later result hold the original data ("private copies":
+// also private from each other)
+func twoLiveResults(s *Sink) {
+	n := 0
+	chk := func(what, held, later, orig string) {
+		n++
+		if held != orig {
+			s.Violate("two live results: "+what, held[:min(200, len(held))], fmt.Sprintf("%s: two results were taken one after the other; after the caller edited the first, the second one (never touched) reads %s, the original is %s", what, held[:min(200, len(held))], orig[:min(200, len(orig))]))
+		}
+		if later != orig {
+			s.Violate("two live results: "+what, later[:min(200, len(later))], fmt.Sprintf("%s: a result taken after the caller edited one of two earlier results reads %s, the original is %s", what, later[:min(200, len(later))], orig[:min(200, len(orig))]))
+		}
+	}
+	for round := 0; round < 3; round++ {
+		a, b := veproduct.GetStringMap(), veproduct.GetStringMap()
+		orig := stringMapDigest(b)
+		switch round {
+		case 0:
+			for k := range a {
+				if k%2 == 0 {
+					delete(a, k)
+				}
+			}
+		case 1:
+			a[0x204] = ""
+			a[0xFFFF] = "foreign"
+		case 2:
+			for k := range a {
+				a[k] = "x"
+			}
+		}
+		chk("veproduct.GetStringMap()", stringMapDigest(b), stringMapDigest(veproduct.GetStringMap()), orig)
+	}
+	for _, e := range enumFs() {
+		a, b := e.f.IntToStringMap(), e.f.IntToStringMap()
+		orig := intMapStr(b)
+		for k := range a {
+			a[k] = "edited"
+		}
+		a[4711] = "added"
+		chk(e.name+".IntToStringMap()", intMapStr(b), intMapStr(e.f.IntToStringMap()), orig)
+	}
+	for _, fl := range flFs() {
+		a, b := fl.f.IntToStringMap(), fl.f.IntToStringMap()
+		orig := intMapStr(b)
+		for k := range a {
+			delete(a, k)
+		}
+		chk(fl.name+".IntToStringMap()", intMapStr(b), intMapStr(fl.f.IntToStringMap()), orig)
+		for _, raw := range []uint{0, 0x101, 0xFFFF} {
+			va, _ := fl.f.NewFieldList(raw)
+			vb, _ := fl.f.NewFieldList(raw)
+			fa, fb := va.Fields(), vb.Fields()
+			orig := fieldsStr(fb)
+			for f := range fa {
+				fa[f] = !fa[f]
+			}
+			vc, _ := fl.f.NewFieldList(raw)
+			chk(fmt.Sprintf("%s(%d).Fields()", fl.name, raw), fieldsStr(fb), fieldsStr(vc.Fields()), orig)
+			// the same value object asked twice
+			f1, f2 := vb.Fields(), vb.Fields()
+			for f := range f1 {
+				delete(f1, f)
+			}
+			chk(fmt.Sprintf("%s(%d).Fields() of one value, twice", fl.name, raw), fieldsStr(f2), fieldsStr(vb.Fields()), orig)
+			// Fields() and the typed Decode() of the same word, in both orders, one of them edited
+			origT := typedDecodeStr(vb)
+			mutateTypedDecode(va)
+			chk(fmt.Sprintf("%s(%d): Decode() edited, Fields() read", fl.name, raw), fieldsStr(vb.Fields()), typedDecodeStr(vc), orig)
+			_ = origT
+			vd, _ := fl.f.NewFieldList(raw)
+			_ = vd.Fields()
+			mutateTypedDecode(vd) // Decode() after Fields() on the same word, then edited
+			ve, _ := fl.f.NewFieldList(raw)
+			chk(fmt.Sprintf("%s(%d): Fields() read, then Decode() edited", fl.name, raw), fieldsStr(ve.Fields()), typedDecodeStr(ve), orig)
+		}
+	}
+	for _, id := range []uint16{0x203, 0xA381, 0xA056, 0xA053, 0xA231} {
+		a, _ := veregister.GetRegisterListByProduct(veproduct.Product(id))
+		b, _ := veregister.GetRegisterListByProduct(veproduct.Product(id))
+		orig := renderList(b)
+		a.FilterRegister(func(veregister.Register) bool { return false })
+		c, _ := veregister.GetRegisterListByProduct(veproduct.Product(id))
+		chk(fmt.Sprintf("GetRegisterListByProduct(0x%04X)", id), renderList(b), renderList(c), orig)
+	}
+	s.Extra["pairs_of_live_results_checked"] += n
+}
+
 func suiteC17(rng *Rng, thorough bool, s *Sink) {
+	defer twoLiveResults(s)
 	mutInt := func(name string, m map[int]string, k int) {
 		switch k {
 		case 0:
